@@ -9,6 +9,12 @@ pub(crate) fn mk_client_dec(inner: InnerCrypto, header: [u8; 4]) -> ClientDecryp
 pub(crate) fn any_client_dec() -> ClientDecrypterHalf {
     ClientDecrypterHalf { decrypt: ich::any_inner(), header: kani::any() }
 }
+pub(crate) fn any_client_dec_at(i: u8) -> ClientDecrypterHalf {
+    ClientDecrypterHalf { decrypt: ich::any_inner_at(i), header: kani::any() }
+}
+pub(crate) fn any_server_dec_at(i: u8) -> ServerDecrypterHalf {
+    ServerDecrypterHalf { decrypt: ich::any_inner_at(i) }
+}
 pub(crate) fn client_dec_inner(d: &ClientDecrypterHalf) -> &InnerCrypto {
     &d.decrypt
 }
